@@ -1,6 +1,6 @@
-From Coq Require Import ZArith List Bool.
+From Coq Require Import ZArith List Bool Permutation.
 From Cspuz Require Import Lib.PyErr Generator.XorShift Generator.XorShiftProofs Generator.Builder
-  Generator.BuilderProofs Generator.Anneal Generator.AnnealProofs Generator.C19Final.
+  Generator.BuilderProofs Generator.Anneal Generator.AnnealProofs Generator.ShuffleBij Generator.C19Final.
 Import ListNotations.
 Open Scope Z_scope.
 
@@ -58,10 +58,20 @@ Theorem random_range : forall s x s', wf s -> random_num s = Done x s' -> 0 <= x
 Proof. exact random_range. Qed.
 Print Assumptions random_range.
 
-Theorem shuffle_same_elements_partial : forall (A : Type) (l l' : list A) s s',
-  shuffle l s = Done l' s' -> (forall x, In x l' -> In x l) /\ length l' = length l.
-Proof. exact @shuffle_incl. Qed.
-Print Assumptions shuffle_same_elements_partial.
+Theorem shuffle_permutation : forall (A : Type) (l l' : list A) s s',
+  shuffle l s = Done l' s' ->
+  Permutation l l' /\
+  exists js, length js = (length l - 1)%nat /\ l' = shuffle_with js 1 l /\
+             forall k j, nth_error js k = Some j -> (j <= S k)%nat.
+Proof. exact shuffle_permutation. Qed.
+Print Assumptions shuffle_permutation.
+
+Theorem shuffle_bijective : forall (A : Type) (l l' : list A),
+  NoDup l -> Permutation l l' ->
+  exists js, draws_ok (length l) js /\ shuffle_with js 1 l = l' /\
+             forall js', draws_ok (length l) js' -> shuffle_with js' 1 l = l' -> js' = js.
+Proof. exact shuffle_bijective_proved. Qed.
+Print Assumptions shuffle_bijective.
 
 (* --- builders and the neighbour generator --- *)
 
